@@ -176,6 +176,22 @@ struct SIMDVector<double, simd_abi::avx512> {
         __m256d high = _mm512_extractf64x4_pd(value,1);
         return _mm256_prod_pd(_mm256_mul_pd(low,high));
     }
+    FASTOR_INLINE double minimum() {
+        double vals[Size]; _mm512_storeu_pd(vals, value);
+        double quan = vals[0];
+        for (FASTOR_INDEX i=1; i<Size; ++i)
+            if (vals[i]<quan)
+                quan = vals[i];
+        return quan;
+    }
+    FASTOR_INLINE double maximum() {
+        double vals[Size]; _mm512_storeu_pd(vals, value);
+        double quan = vals[0];
+        for (FASTOR_INDEX i=1; i<Size; ++i)
+            if (vals[i]>quan)
+                quan = vals[i];
+        return quan;
+    }
     FASTOR_INLINE SIMDVector<double,simd_abi::avx512> reverse() {
         return _mm512_reverse_pd(value);
     }
